@@ -55,6 +55,38 @@ def source_file_of(fobj):
 # ---------------------------------------------------------------------------------------------------
 # interpreter-level callables
 
+_class_attr_cache = {}
+
+
+def _assigned_in_class(cls, name):
+    """does any method of the class hierarchy (source in /repo) assign self.<name>?"""
+    key = cls
+    if key not in _class_attr_cache:
+        names = set()
+        for k in cls.__mro__:
+            if k is object:
+                continue
+            try:
+                path = inspect.getsourcefile(k)
+                tree, _, _ = _parse_file(path)
+            except (TypeError, OSError):
+                continue
+            for node in ast.walk(tree):
+                if isinstance(node, ast.ClassDef) and node.name == k.__name__:
+                    for n in ast.walk(node):
+                        if isinstance(n, ast.Attribute) and isinstance(n.ctx, ast.Store) and isinstance(n.value, ast.Name) and n.value.id == 'self':
+                            names.add(n.attr)
+                        if isinstance(n, ast.Call) and isinstance(n.func, ast.Name) and n.func.id == 'setattr' and n.args \
+                                and isinstance(n.args[0], ast.Name) and n.args[0].id == 'self':
+                            if len(n.args) > 1 and isinstance(n.args[1], ast.Constant):
+                                names.add(n.args[1].value)
+                            else:
+                                names.add('*')
+        _class_attr_cache[key] = names
+    names = _class_attr_cache[key]
+    return name in names or '*' in names
+
+
 class InterpFunction:
     """lambda or nested def closed over an interpreter frame."""
 
@@ -503,6 +535,11 @@ class Interp:
                         return ModelMethod(name, obj)
                     raise Unsupported('descriptor %s.%s' % (k.__name__, name))
                 return raw
+        if obj is not None and isinstance(obj, Rec) and _assigned_in_class(cls, name):
+            # the class itself stores this attribute somewhere (a cache set by an earlier call, ...): the contract's record
+            # shape does not describe it, so nothing may be concluded about code that reads it
+            raise Unsupported("attribute '%s' of %s is assigned by the class but not described by the contract's parameter "
+                              "shape (object state left by earlier calls is not covered)" % (name, cls.__name__))
         raise PyRaise(AttributeError("'%s' object has no attribute '%s'" % (cls.__name__, name)), implicit=True)
 
     def setattr(self, obj, name, value):
